@@ -88,10 +88,12 @@ func (v *Verifier) verify(ctx context.Context, msg *Message, rawContent, sigCont
 	buf := make([]byte, size)
 
 	for _, sig := range msg.Signatures {
+		// alg may be in the unprotected header of the JSON serialization.
 		var alg jwa.SignatureAlgorithm
 		if sig.protected != nil {
 			alg = sig.protected.alg
-		} else if sig.header != nil {
+		}
+		if alg == jwa.SignatureAlgorithmUnknown && sig.header != nil {
 			alg = sig.header.alg
 		}
 		if alg == jwa.SignatureAlgorithmUnknown {
